@@ -175,7 +175,12 @@ def conditional(I, R, Dy, Dx, name="c", cls="ConditionalGaussianPDF", args="full
             kw["b"] = nf.atom(f"b({name})", [R, Dy], owner=name)
     diag = "Diag" in cls
     if diag:
-        kw["Sigma"] = diag_matrix(f"Sigma({name})", R, Dy)
+        # precision-only route of the diagonal classes when the context asks for it (found by the mutation sweep: the label
+        # "@Lambda" used to build these classes from Sigma all the same, so their Lambda branch was never analysed)
+        if args == "Lambda" and tab.get("Lambda", {}).get("init"):
+            kw["Lambda"] = diag_matrix(f"Lambda({name})", R, Dy)
+        else:
+            kw["Sigma"] = diag_matrix(f"Sigma({name})", R, Dy)
         return I.construct(cls, kw)
     parts = set(args.split("+")) if args != "full" else {"Sigma", "Lambda", "lndet"}
     if "Sigma" in parts:
